@@ -286,6 +286,10 @@ func checkC03RouteImmutable(w *World, r *Report) {
 					okk, why := false, "store to a Route that may already be registered"
 					if a, isAlloc := seeThrough(base).(*ssa.Alloc); isAlloc && a.Parent() == fn && fn == newRoute {
 						okk, why = true, "NewRoute initialising the route it allocated"
+					} else if isAlloc && a.Parent() == fn && a.Heap {
+						okk, why = true, "initialising a route this function has just allocated (not yet registered)"
+					} else if c, isCall := seeThrough(base).(*ssa.Call); isCall && fn == newRoute && returnsFreshAlloc(w, c, route) {
+						okk, why = true, "NewRoute initialising the route a constructor helper has just allocated"
 					} else if sb, sf, ok := logicalField(base); ok && namedOf(sb.Type()) == sealed && sf.Name() == "route" && fn.Parent() != nil {
 						if _, isParam := sb.(*ssa.Parameter); isParam {
 							okk, why = true, "option closure writing the route under construction"
@@ -436,4 +440,25 @@ func storesParam(fn *ssa.Function, idx int) bool {
 	}
 	walk(p, 0)
 	return leak
+}
+
+// returnsFreshAlloc: c calls a module function every return of which hands back a struct of type t it allocated itself.
+func returnsFreshAlloc(w *World, c *ssa.Call, t *types.Named) bool {
+	callee := c.Call.StaticCallee()
+	if callee == nil || !w.InModule(callee) || len(callee.Blocks) == 0 {
+		return false
+	}
+	n, ok := 0, true
+	eachInstr(callee, func(in ssa.Instruction) {
+		rt, isRet := in.(*ssa.Return)
+		if !isRet || len(rt.Results) == 0 {
+			return
+		}
+		n++
+		a, isAlloc := seeThrough(rt.Results[0]).(*ssa.Alloc)
+		if !isAlloc || a.Parent() != callee || namedOf(a.Type()) != t {
+			ok = false
+		}
+	})
+	return ok && n > 0
 }
